@@ -30,6 +30,7 @@ type streamCase struct {
 	Padded bool
 	Used   int           // history of the parser objects (frontends.go: feUsed)
 	Reuse  bool          // the parsers' Reuse option (frontends.go: feReuse)
+	BReset bool          // one Builder per token stream, Reset between documents (frontends.go: feBuilderReset)
 	Fault  *sim.Schedule // fault configuration: a delivery schedule whose reader fails (non-EOF) at an offset
 	feat   map[string]any
 }
@@ -45,7 +46,7 @@ func (c *streamCase) render() any {
 	for _, s := range c.Scheds {
 		ss = append(ss, s.String())
 	}
-	return map[string]any{"family": c.Family, "input": in, "mode": []string{"single", "callback", "channel"}[c.Mode], "schedules": ss, "sweep": c.Sweep, "parser_history": []string{"fresh", "parsed another document before", "previous streamed call failed mid-document", "previous call failed after a complete document"}[c.Used], "reuse_option": c.Reuse, "reader_fault": fmt.Sprint(c.Fault)}
+	return map[string]any{"family": c.Family, "input": in, "mode": []string{"single", "callback", "channel"}[c.Mode], "schedules": ss, "sweep": c.Sweep, "parser_history": []string{"fresh", "parsed another document before", "previous streamed call failed mid-document", "previous call failed after a complete document"}[c.Used], "reuse_option": c.Reuse, "one_builder_per_stream": c.BReset, "reader_fault": fmt.Sprint(c.Fault)}
 }
 
 var bom = []byte{0xEF, 0xBB, 0xBF}
@@ -156,6 +157,7 @@ func drawStreamCase(t *rapid.T, forC09 bool) *streamCase {
 			c.Used = 1 + sim.Intn(t, 3, "used")
 		}
 		c.Reuse = sim.Intn(t, 6, "reuse") == 5
+		c.BReset = sim.Bool(t, "builderreset")
 	}
 	switch fam {
 	case 0:
@@ -510,9 +512,9 @@ func propC03(cx *sim.Ctx) {
 	sim.Declare([]string{"cut_inside_string", "cut_inside_number", "cut_inside_literal", "cut_inside_whitespace", "cut_inside_unicode_escape", "cut_between_escape_pair", "cut_right_after_backslash", "cut_after_open_quote", "cut_after_minus", "cut_after_dot", "cut_after_e", "cut_after_exp_sign", "cut_right_after_newline", "cut_between_cr_lf", "cut_inside_bom", "cut_at_4096_multiple", "cut_at_4096_in_string", "cut_at_4096_in_number", "strict_json_vs_sen", "both_error_delivered_prefix_differs"}, []string{"reader_error_mid_stream"})
 	c := drawStreamCase(cx.T, false)
 	cx.Render(c.render)
-	cx.Key(c.Input, c.Mode, c.Used, c.Reuse)
-	feUsed, feReuse = c.Used, c.Reuse
-	defer func() { feUsed, feReuse = 0, false }()
+	cx.Key(c.Input, c.Mode, c.Used, c.Reuse, c.BReset)
+	feUsed, feReuse, feBuilderReset = c.Used, c.Reuse, c.BReset
+	defer func() { feUsed, feReuse, feBuilderReset = 0, false, false }()
 	for _, s := range c.Scheds {
 		cx.Key(s.String())
 	}
